@@ -217,9 +217,9 @@ type Writer struct {
 	// stopped by the writer
 	Recover bool
 	failed  bool
-	Buf       []byte
-	Calls     []WriteEvent
-	Chunks    [][]byte
+	Buf     []byte
+	Calls   []WriteEvent
+	Chunks  [][]byte
 }
 
 func (w *Writer) Write(p []byte) (int, error) {
@@ -269,6 +269,7 @@ const (
 	KBufioPrefetched             // *bufio.Reader that already holds data when handed over (Peek(1) done)
 	KRich                        // own type offering ReadByte/UnreadByte/Peek/Discard/Buffered/WriteTo over the scripted reader
 	KLimited                     // *io.LimitedReader over the scripted reader (limit far beyond the stream)
+	KOddLen                      // own type over the scripted reader with methods Len() and Size() that mean something else (bytes written so far: 0)
 	KBytesBuffer                 // *bytes.Buffer holding the stream (contiguous by construction)
 	KBytesReader                 // *bytes.Reader
 	KStringsReader               // *strings.Reader
@@ -276,13 +277,13 @@ const (
 )
 
 func (k Kind) String() string {
-	return [...]string{"raw", "bufio16", "bufio4096", "bufio-prefetched", "rich", "limited", "bytes.Buffer", "bytes.Reader", "strings.Reader"}[k]
+	return [...]string{"raw", "bufio16", "bufio4096", "bufio-prefetched", "rich", "limited", "odd-len", "bytes.Buffer", "bytes.Reader", "strings.Reader"}[k]
 }
 
 // Scripted reports whether the kind draws from the scripted reader (so
 // that fragmentation and injected errors apply); the others hold the whole
 // stream and can only end with io.EOF.
-func (k Kind) Scripted() bool { return k <= KLimited }
+func (k Kind) Scripted() bool { return k <= KOddLen }
 
 // AllKinds lists every kind; ScriptedKinds those over the scripted reader.
 func AllKinds() []Kind {
@@ -308,6 +309,8 @@ func Wrap(k Kind, src *Reader) io.Reader {
 		return &Rich{br: bufio.NewReaderSize(src, 4096)}
 	case KLimited:
 		return io.LimitReader(src, 1<<40)
+	case KOddLen:
+		return &OddLen{src}
 	case KBytesBuffer:
 		return bytes.NewBuffer(append([]byte(nil), src.Data...))
 	case KBytesReader:
@@ -317,6 +320,16 @@ func Wrap(k Kind, src *Reader) io.Reader {
 	}
 	return src
 }
+
+// OddLen is a reader whose Len, Size and Cap methods do not describe the
+// unread part of the stream (think of a connection double that embeds a
+// buffer for what was written to it): a decoder must not take them for it.
+type OddLen struct{ src *Reader }
+
+func (r *OddLen) Read(p []byte) (int, error) { return r.src.Read(p) }
+func (r *OddLen) Len() int                   { return 0 }
+func (r *OddLen) Size() int64                { return 0 }
+func (r *OddLen) Cap() int                   { return 0 }
 
 // Rich is a reader of its own type that honestly implements the optional
 // interfaces a decoder may probe for.
